@@ -36,7 +36,7 @@ ASSUMPTIONS = [
     "field naming in errors: the message must contain the python name or the wire key of the nearest enclosing dataclass field",
     "wrong-typed leaves are only injected where cattrs does not coerce (int, float, datetime, date, Enum, nested dataclass); str/bool/bytes coercions are not demanded",
 ]
-BOUND = {"quick": "672 one-field roots + 640 two-field roots + container chains of depth 3-4 over a key-mapped dataclass; 1884 histories; 2-node graphs", "thorough": "depth-3 trees (2720 roots) ; 3-node graphs with one slot"}
+BOUND = {"quick": "672 one-field roots + 640 two-field roots + container chains of depth 3-4 over a key-mapped dataclass; 1884 histories; 2-node graphs; 108 recursive type cases (self / mutual cycles through list, dict, optional and direct edges x key map x which class is met first x decode- or encode-first)", "thorough": "depth-3 trees (2720 roots) ; 3-node graphs with one slot"}
 CHUNK = 8
 
 
@@ -111,6 +111,7 @@ def cases(tier, seed):
             out.append({"kind": "history", "seq": list(seq)})
     for g in graphs(2, 2):
         out.append({"kind": "graph", "graph": g})
+    out += rec_cases()
     if tier != "quick":
         for g in graphs(3, 1):
             out.append({"kind": "graph", "graph": g})
@@ -473,9 +474,145 @@ def run_graph(case):
             "outcome": "graph:" + shape.split(":")[0] + (":finding" if found else ":ok"), "sample": {"graph": g}}
 
 
+# ----------------------------------------------------------------------------------------------
+# recursive types: dataclasses that refer to themselves / to one another (written as source text, the way generated models are)
+# ----------------------------------------------------------------------------------------------
+REC_EDGE = {"direct": "{T}", "list": "List[{T}]", "dict": "Dict[str, {T}]", "opt": "Optional[{T}]"}
+REC_DEFAULT = {"direct": "", "list": " = field(default_factory=list)", "dict": " = field(default_factory=dict)", "opt": " = None"}
+
+
+def rec_shapes():
+    out = []
+    for e in ("list", "dict", "opt"):
+        out.append({"shape": "self", "fwd": e, "back": e})
+    for fwd in ("direct", "list", "dict", "opt"):
+        for back in ("list", "dict", "opt"):
+            out.append({"shape": "mutual", "fwd": fwd, "back": back})
+    return out
+
+
+def rec_cases():
+    out = []
+    for sh in rec_shapes():
+        for km in ("renamed", "none"):
+            for first in ("A", "B") if sh["shape"] == "mutual" else ("A",):
+                for order in ("decode-first", "encode-first"):
+                    out.append(dict(sh, kind="recursive", keymap=km, first=first, order=order))
+    return out
+
+
+def rec_module(case):
+    """source text of the two classes -> fresh module (registered in sys.modules so that the annotations resolve)"""
+    import types as _types
+
+    _DC_COUNT[0] += 1
+    name = f"_verif_rec_{os.getpid()}_{_DC_COUNT[0]}"
+    ren = case["keymap"] == "renamed"
+
+    def meta(pairs):
+        if not ren:
+            return ""
+        load = {w: n for n, w in pairs}
+        return f"\n    class Meta:\n        key_transform_with_load = {load!r}\n        key_transform_with_dump = {dict((n, w) for n, w in pairs)!r}\n"
+
+    if case["shape"] == "self":
+        src = ("from __future__ import annotations\nfrom dataclasses import dataclass, field\nfrom typing import Dict, List, Optional\n\n"
+               f"@dataclass\nclass A:\n    node_id: str\n    kids: {REC_EDGE[case['fwd']].format(T='A')}{REC_DEFAULT[case['fwd']]}\n"
+               + meta([("node_id", "nodeId"), ("kids", "Kids")]))
+    else:
+        src = ("from __future__ import annotations\nfrom dataclasses import dataclass, field\nfrom typing import Dict, List, Optional\n\n"
+               f"@dataclass\nclass A:\n    folder_id: str\n    entries: {REC_EDGE[case['fwd']].format(T='B')}{REC_DEFAULT[case['fwd']]}\n"
+               + meta([("folder_id", "folderId"), ("entries", "Entries")])
+               + f"\n@dataclass\nclass B:\n    entry_id: str\n    sub_folders: {REC_EDGE[case['back']].format(T='A')}{REC_DEFAULT[case['back']]}\n"
+               + meta([("entry_id", "entryId"), ("sub_folders", "subFolders")]))
+    mod = _types.ModuleType(name)
+    sys.modules[name] = mod
+    exec(compile(src, name, "exec"), mod.__dict__)
+    return mod, src
+
+
+def rec_values(case, mod):
+    """(json, instance) pairs that descend three levels through the cycle, for each root class"""
+    ren = case["keymap"] == "renamed"
+
+    def wrapj(edge, j):
+        return {"direct": j, "list": [j], "dict": {"k": j}, "opt": j}[edge]
+
+    def emptyj(edge):
+        return {"list": [], "dict": {}, "opt": None}[edge]
+
+    if case["shape"] == "self":
+        A = mod.A
+        k_id, k_kids = ("nodeId", "Kids") if ren else ("node_id", "kids")
+        e = case["fwd"]
+        leaf_j, leaf_v = {k_id: "n3", k_kids: emptyj(e)}, A("n3", emptyj(e))
+        mid_j, mid_v = {k_id: "n2", k_kids: wrapj(e, leaf_j)}, A("n2", wrapj(e, leaf_v))
+        top_j, top_v = {k_id: "n1", k_kids: wrapj(e, mid_j)}, A("n1", wrapj(e, mid_v))
+        return {"A": [(top_j, top_v), (leaf_j, leaf_v)]}
+    A, B = mod.A, mod.B
+    ka, kae = ("folderId", "Entries") if ren else ("folder_id", "entries")
+    kb, kbs = ("entryId", "subFolders") if ren else ("entry_id", "sub_folders")
+    f, b = case["fwd"], case["back"]
+    b_leaf_j, b_leaf_v = {kb: "e2", kbs: emptyj(b)}, B("e2", emptyj(b))
+    a_inner_j, a_inner_v = {ka: "f2", kae: wrapj(f, b_leaf_j)}, A("f2", wrapj(f, b_leaf_v))
+    b_mid_j, b_mid_v = {kb: "e1", kbs: wrapj(b, a_inner_j)}, B("e1", wrapj(b, a_inner_v))
+    a_top_j, a_top_v = {ka: "f1", kae: wrapj(f, b_mid_j)}, A("f1", wrapj(f, b_mid_v))
+    return {"A": [(a_top_j, a_top_v)], "B": [(b_mid_j, b_mid_v), (b_leaf_j, b_leaf_v)]}
+
+
+def run_recursive(case):
+    label = f"recursive {case['shape']} fwd={case['fwd']} back={case['back']} keymap={case['keymap']} first={case['first']} {case['order']}"
+    conv = pristine()
+    mod, src = rec_module(case)
+    found, seen, nontriv = [], set(), []
+    n = 0
+    ctx = f"{case['shape']} cycle, back edge {case['back']}; keymap {case['keymap']}"
+
+    def add(clause, disc, detail):
+        sig = f"C16|{clause}|{disc}"
+        if sig not in seen:
+            seen.add(sig)
+            found.append({"sig": sig, "key": label, "msg": f"{detail} | {label}"})
+
+    try:
+        vals = rec_values(case, mod)
+        roots = [case["first"]] + [r for r in vals if r != case["first"]]
+        for r in roots:
+            cls = getattr(mod, r)
+            for j, v in vals.get(r, []):
+                n += 1
+                nontriv.append(f"{label}|{r}|{json.dumps(j, sort_keys=True)[:120]}")
+                steps = ("dec", "enc") if case["order"] == "decode-first" else ("enc", "dec")
+                for st in steps:
+                    try:
+                        if st == "dec":
+                            obj = conv.structure_from_dict(j, cls)
+                            if obj != v:
+                                add("decode", f"decoded instance differs from the expected instance [{ctx}]", f"{json.dumps(j)[:160]} -> {obj!r:.200}")
+                            back = conv.unstructure_to_dict(obj)
+                            if norm_json(back) != norm_json(j):
+                                add("law", f"encode(decode(j)) != j [{ctx}]", f"{json.dumps(j)[:160]} came back as {json.dumps(norm_json(back))[:200]}")
+                        else:
+                            enc = conv.unstructure_to_dict(v)
+                            if norm_json(enc) != norm_json(j):
+                                add("law", f"encode(x) differs from the wire form [{ctx}]", f"{v!r:.150} -> {json.dumps(norm_json(enc))[:200]} expected {json.dumps(j)[:160]}")
+                            dec = conv.structure_from_dict(enc, cls)
+                            if dec != v:
+                                add("law", f"decode(encode(x)) != x [{ctx}]", f"{v!r:.150} -> {dec!r:.150}")
+                    except Exception as e:
+                        add("decode" if st == "dec" else "encode", f"{'conforming JSON rejected' if st == 'dec' else 'instance cannot be encoded'} [{ctx}]: {type(e).__name__}",
+                            f"{json.dumps(j)[:150]}: {str(e)[:200]}")
+    finally:
+        sys.modules.pop(mod.__name__, None)
+    return {"findings": found, "evals": n, "nontrivial": nontriv, "nontrivial_multi": True, "states": 1, "transitions": n, "validated": n,
+            "outcome": "recursive:" + ("finding" if found else "ok"), "sample": {"types": label, "source": src[-300:]}}
+
+
 def run_case(case):
     if case["kind"] == "law":
         return run_law(case)
+    if case["kind"] == "recursive":
+        return run_recursive(case)
     if case["kind"] == "history":
         return run_history(case)
     if case["kind"] == "graph":
